@@ -1129,6 +1129,25 @@ func (e *Ev) evHeapGhost(name string, x *ast.CallExpr) (Val, bool) {
 			cs = append(cs, fmt.Sprintf("(forall ((%s Int)) (! (=> (<= %s %s) (= (select %s %s) (select %s %s))) :pattern ((select %s %s))))", p, p, a0, cur, p, old, p, cur, p))
 		}
 		return VBool{sAnd(cs...)}, true
+	case "dyntypeis":
+		// dyntypeis(x, "Elem"): the modelled interface value x holds a *Elem
+		if len(x.Args) != 2 {
+			e.unsupp(x, "dyntypeis(x, \"Elem\")")
+		}
+		bl, ok := x.Args[1].(*ast.BasicLit)
+		if !ok || bl.Kind != token.STRING {
+			e.unsupp(x, "dyntypeis needs the element type as a string literal")
+		}
+		en, _ := strconv.Unquote(bl.Value)
+		if e.fx.prog.structByName(en) == nil {
+			e.unsupp(x, "dyntypeis names an unknown struct type %s", en)
+		}
+		rv, ok := e.ev(x.Args[0]).(VRef)
+		if !ok {
+			e.unsupp(x, "dyntypeis needs an interface value")
+		}
+		e.fx.specUsed["dyntype"] = true
+		return VBool{sAnd(sNot(sEq(rv.T, "0")), sEq("(dyntype "+rv.T+")", fmt.Sprintf("%d", typeID(en))))}, true
 	case "asref":
 		// asref(x, "Elem"): the integer x read as a reference to an Elem object
 		if len(x.Args) != 2 {
